@@ -207,6 +207,14 @@ def tok_valid(tok, style, arbitrary):
             ok = typ in "if"
     else:
         ok = True
+    if ok and tok.get("ids_off") and n in ("thread", "process"):
+        # the record carries None: plain and repr conversions print it,
+        # anything that wants a number fails -- when (load time or first
+        # record) is not judged, only that an ACCEPTED format never raises
+        plain = (tok.get("conv", "s") in "sr") if sty == "classic" else (
+            tok.get("fvariant", 0) in (0, 1) if sty == "format" else True)
+        if not plain:
+            ok = None
     return ok, True, not known
 
 
@@ -264,6 +272,8 @@ def format_verdict(h):
             False
     valid, hasref, unknown, open_ = True, False, False, False
     for tok in h["format"]:
+        if h.get("log_ids_off"):
+            tok = dict(tok, ids_off=True)
         v, r, u = tok_valid(tok, style, arb)
         if v is None:
             open_, v = True, True
@@ -807,10 +817,19 @@ def generate(rng, tier, index):
                                  [35, "WARN"], [45, "FATAL"], [25, "NOTICE"],
                                  [11, "debug"], [21, "Info"]],
                                 rng.randint(1, 3))
+    ids_off = rng.random() < 0.06
+    if ids_off:
+        for lg_ in loggers:
+            for h_ in lg_["handlers"]:
+                h_["log_ids_off"] = True
     return {"prop": ID, "tag": tag,
             "epoch": float(rng.randint(1500000000, 1900000000)),
             "loggers": loggers, "ops": history, "entry": entry,
-            "env_levels": env_levels}
+            "env_levels": env_levels,
+            # the application has switched off the collection of thread and
+            # process identifiers (logging.logThreads / logProcesses, the
+            # documented optimisation): records carry None there
+            "log_ids_off": ids_off}
 
 
 # ---------------------------------------------------------------------------
@@ -863,6 +882,7 @@ def execute(plan):
              "loggerDict": dict(logging.Logger.manager.loggerDict),
              "time": time.time, "stdout": sys.stdout, "stderr": sys.stderr,
              "raise": logging.raiseExceptions, "gc": gc.isenabled(),
+             "ids": (logging.logThreads, logging.logProcesses),
              "reopenable": loghandler._reopenable_handlers[:],
              "levelnames": (dict(logging._levelToName),
                             dict(logging._nameToLevel))}
@@ -871,6 +891,8 @@ def execute(plan):
     try:
         for num, name in plan.get("env_levels") or ():
             logging.addLevelName(num, name)
+        if plan.get("log_ids_off"):
+            logging.logThreads = logging.logProcesses = False
         gc.collect()
         gc.disable()
         del loghandler._reopenable_handlers[:]
@@ -893,6 +915,7 @@ def execute(plan):
             os.chdir("/")
         except OSError:
             pass
+        logging.logThreads, logging.logProcesses = saved["ids"]
         logging._levelToName.clear()
         logging._levelToName.update(saved["levelnames"][0])
         logging._nameToLevel.clear()
